@@ -203,6 +203,21 @@ pub fn run(ctx: &Ctx, rep: &mut Report) {
                     let want = !unauth && amount > 0 && have >= amount && dest_trusted && gas_amount > 0 && ghave >= gas_amount && !refused;
                     rep.step(format!("outbound {} amount={}({}) gas={}({}) dest={:?}({}) data={} auth={} want={}", t.label, amount, aclass, gas_amount, gclass, lossy(&dest), dclass, data.is_some(), !unauth, want));
                     let gas_addr = gas_addr_sel.clone();
+                    // an id nobody registered: must be refused whatever else is right
+                    if rng.chance(1, 25) {
+                        let unknown = rng.bytes32();
+                        let o = w.do_transfer(&user, &unknown, &dest, &dest_addr, amount.max(1), data.clone(), &gas_addr, gas_amount.max(1), Auth::Only(vec![user.clone()]));
+                        rep.count("outbound-unknown-token");
+                        rep.eval("outbound-unknown-token", &format!("out|unknown|{}", o.ok()), true);
+                        if let Some(l) = &o.leak {
+                            rep.violation("failed-transfer-left-trace", l.clone());
+                            break;
+                        }
+                        if o.ok() {
+                            rep.violation("outbound-accepted:unknown-token", "interchain_transfer for an id that was never registered succeeded".into());
+                            break;
+                        }
+                    }
                     if gas_same {
                         rep.count("gas-token:same-as-transferred");
                     }
@@ -500,6 +515,7 @@ pub fn run(ctx: &Ctx, rep: &mut Report) {
     }
     req.push("offline-conservation-checked".into());
     req.push("gas-token:same-as-transferred".into());
+    req.push("outbound-unknown-token".into());
     rep.notes.insert("required".into(), json!(req));
     rep.notes.insert("token_mode".into(), json!("native"));
     rep.notes.insert("rule".into(), json!("universes of 36 operations over 2 service-deployed tokens (tree code; one with initial supply, one with a designated minter), 3 registered canonical tokens (asset contract, stand-alone interchain token, probe token that can refuse), 4 users: outbound transfers with amount in {0, -1, 1, balance, balance+1, random}, gas in {0, -1, 1, all the payer has, one more}, destination in {trusted, never trusted, removed, hub chain}, with/without data, gas sometimes paid in the transferred token itself; approved inbound transfers (1, exact custody, custody+1, random, 0; with/without data to a destination application that may fail; origin trusted or not); trusted-chain changes; holders' own burns; the designated minter's mints. All balances of all holders (users, service, gas service, application) are compared with the model after every operation; the announced contract_called event is compared with the independent ABI encoding of exactly what was taken, the gas_paid event with that payload's hash and the stated gas; at the end custody = locked - released per canonical token and sum of balances = initial + mints - burns - sent + received per service-deployed token. distinct = (direction, token, amount class, gas class, destination class, outcome)"));
